@@ -46,7 +46,8 @@ K_TYPES = "structural-equivalence:result-types-ignored"
 K_FWD = "structural-equivalence:forward-reference-falls-back-to-identity"
 K_PARENT = "structural-equivalence:attached-root-op-compared-by-parent-block"
 K_OI_ZIP = "cse:OperationInfo.__eq__:ValueError-on-different-region-count"
-K_ATTR_IRDL = "attribute-eq:irdl-file-defined-attribute-ignores-parameters"
+K_ATTR_NOFIELDS = "attribute-eq:parametrized-attribute-without-dataclass-fields-ignores-parameters"
+K_ATTR_UNREG = "attribute-eq:unregistered-attribute-class-created-per-context"
 
 
 # ------------------------------------------------------------------------------------------------ model of the relation
@@ -145,15 +146,14 @@ def model_equiv(a, b, *, types=True, prereg=True, parent_bug=False):
 
 
 def attr_eq_culprits(a, b):
-    """Attribute pairs met at corresponding positions of two same-shaped trees that are different in canonical form
-    although Attribute.__eq__ calls them equal. Returns the innermost such pairs as [(x, y)]."""
-    from xdsl.ir import Data, ParametrizedAttribute
+    """Attribute pairs met at corresponding positions of two same-shaped trees on which Attribute.__eq__ and the
+    canonical form disagree (innermost such pairs): [(x, y, canon_equal, real_equal)]."""
+    from xdsl.ir import Attribute, Data, ParametrizedAttribute
     from xv.canon import canon_attr
     from xv.genir import collect
     out = []
 
     def children(x):
-        from xdsl.ir import Attribute
         if isinstance(x, ParametrizedAttribute):
             return [p for p in x.parameters if isinstance(p, Attribute)]
         if isinstance(x, Data):
@@ -165,16 +165,17 @@ def attr_eq_culprits(a, b):
         return []
 
     def inner(x, y):
-        if canon_attr(x) == canon_attr(y) or not (x == y):
+        ce, re_ = canon_attr(x) == canon_attr(y), bool(x == y)
+        if ce == re_:
             return
         cx, cy = children(x), children(y)
-        if type(x) is type(y) and len(cx) == len(cy):
+        if len(cx) == len(cy):
             n = len(out)
             for p, q in zip(cx, cy):
                 inner(p, q)
             if len(out) > n:
                 return
-        out.append((x, y))
+        out.append((x, y, ce, re_))
 
     oa, ba, _, _ = collect(a)
     ob, bb, _, _ = collect(b)
@@ -191,13 +192,20 @@ def attr_eq_culprits(a, b):
     return out
 
 
-def is_irdl_dynamic_attr(x):
-    """ParametrizedAttribute subclass created at run time from an .irdl file: the dataclass-generated __eq__ it
-    inherits has no fields to compare, so parameters are ignored."""
+def attr_culprit_class(x, y, canon_equal, real_equal):
+    """Names the KNOWN Attribute.__eq__ mechanism (property C08) behind one culprit pair, or None."""
     import dataclasses
+    from xdsl.dialects.builtin import UnregisteredAttr
     from xdsl.ir import ParametrizedAttribute
-    return isinstance(x, ParametrizedAttribute) and len(x.parameters) > 0 and not dataclasses.fields(type(x)) \
-        and type(x).__module__ == "xdsl.ir.core"
+    if real_equal and not canon_equal and isinstance(x, ParametrizedAttribute) and type(x) is type(y) \
+            and len(x.parameters) > 0 and not dataclasses.fields(type(x)):
+        # the class declares parameters but is not a dataclass of its own (classes created from .irdl files, DLTI entry
+        # maps): the inherited dataclass __eq__ has no field to compare
+        return K_ATTR_NOFIELDS
+    if canon_equal and not real_equal and isinstance(x, UnregisteredAttr) and isinstance(y, UnregisteredAttr) \
+            and type(x) is not type(y):
+        return K_ATTR_UNREG
+    return None
 
 
 def _bops(b):
@@ -332,12 +340,15 @@ def decide_pair(a, b, how, C, strict_model=True):
                          if model_equiv(x, y, **kw) == real]
             if len(explained) == 1:
                 key = explained[0]
-            elif not explained and real and not oracle:
+            elif not explained and _model_real_attr_eq(x, y) == real:
+                # the relation itself is right; Attribute.__eq__ (property C08) and the canonical form disagree
                 cul = attr_eq_culprits(x, y)
-                if cul and all(is_irdl_dynamic_attr(p) for p, _ in cul) and _model_real_attr_eq(x, y):
-                    key = K_ATTR_IRDL
-                elif cul and _model_real_attr_eq(x, y):
-                    key = "structural-equivalence:Attribute.__eq__-equates-different:" + type(cul[0][0]).__name__
+                kinds = {attr_culprit_class(*c) for c in cul}
+                if cul and len(kinds) == 1 and None not in kinds:
+                    key = kinds.pop()
+                elif cul:
+                    bad = next(c for c in cul if attr_culprit_class(*c) is None)
+                    key = "structural-equivalence:Attribute.__eq__-disagrees-with-canonical-form:" + type(bad[0]).__name__
             elif len(explained) > 1:
                 # several single defects give the observed answer; prefer the one whose precondition holds
                 from xdsl.ir import Operation
